@@ -6,6 +6,7 @@ mod c03;
 mod c04;
 mod c05;
 mod c06;
+mod c07;
 mod c13;
 mod common;
 mod e3;
@@ -54,6 +55,7 @@ fn main() {
             "delete" => c05::replay(case),
             "e3" => match case["check"].as_str().unwrap_or("") {
                 "C06" => c06::replay(case),
+                "C07" => c07::replay_race(case),
                 r => {
                     eprintln!("unknown e3 check {r:?}");
                     std::process::exit(2);
@@ -61,6 +63,7 @@ fn main() {
             },
             "hist" => match case["rider"].as_str().unwrap_or("") {
                 "C02" => c02::replay(case),
+                "C07" => c07::replay_hist(case),
                 r => {
                     eprintln!("unknown history rider {r:?}");
                     std::process::exit(2);
@@ -90,6 +93,7 @@ fn main() {
         "C04" => c04::run(&report, &budget),
         "C05" => c05::run(&report, &budget),
         "C06" => c06::run(&report, &budget),
+        "C07" => c07::run(&report, &budget),
         _ => {
             eprintln!("unknown property {id}");
             std::process::exit(2);
